@@ -84,7 +84,7 @@ pub fn run(tier: Tier) -> Report {
     let fails: Vec<Failure> = items
         .par_iter()
         .enumerate()
-        .filter(|(i, it)| i % step == 0 || it.family == "G1-whole-programs")
+        .filter(|(i, it)| i % step == 0 || progs::always_included(it.family))
         .flat_map_iter(|(i, it)| {
             let pr = print_program(&it.program);
             let mut out = vec![];
